@@ -76,6 +76,8 @@ func fail(key, f string, a ...any) vrt.Failure {
 type builder func() *sched.Instance
 
 func mk(name string, bound int, unlockPoint bool, b builder) *sched.Scenario {
+	// bound and unlock points are part of the name: a recorded schedule only means something under the same points
+	name = fmt.Sprintf("%s/bound=%d/unlock-points=%v", name, bound, unlockPoint)
 	return &sched.Scenario{Name: name, Bound: bound, UnlockPoint: unlockPoint, New: func() *sched.Instance {
 		clock.VerifInstall(base, nil)
 		return b()
@@ -395,6 +397,40 @@ func tokenLimiter() *sched.Instance {
 	return inst
 }
 
+// tokenLimiterFirstContact: three requests of one not-yet-known source at one instant, no capacity pressure: the
+// source's bookkeeping must not lose an update - exactly burst (2) of them are admitted in every schedule.
+func tokenLimiterFirstContact() *sched.Instance {
+	c := &counter{}
+	rs := ratelimit.NewRateSet()
+	rs.Add(time.Second, 1, 2)
+	tl, _ := ratelimit.New(okHandler(c, true), extractor(), rs)
+	var codes [3]int
+	req := func(i int) func() {
+		return func() {
+			rec := httptest.NewRecorder()
+			r := httptest.NewRequest("GET", "http://x/", nil)
+			r.Header.Set("Source", "a")
+			tl.ServeHTTP(rec, r)
+			codes[i] = rec.Code
+		}
+	}
+	inst := &sched.Instance{Names: []string{"a1", "a2", "a3"}}
+	inst.Bodies = []func(){req(0), req(1), req(2)}
+	inst.Check = func(*vrt.Exec) []vrt.Failure {
+		ok := 0
+		for _, x := range codes {
+			if x == 200 {
+				ok++
+			}
+		}
+		if ok != 2 || c.get(0) != 2 {
+			return []vrt.Failure{fail("lost-update:tokenlimiter-first-contact", "three requests of a new source at one instant, burst 2: %d admitted (statuses %v, handler invoked %d times)", ok, codes, c.get(0))}
+		}
+		return nil
+	}
+	return inst
+}
+
 func ttlMap() *sched.Instance {
 	m := collections.NewTTLMap(2)
 	m.Set("k", 1, 1)
@@ -554,6 +590,7 @@ func Scenarios(tier string) []*sched.Scenario {
 		mk("rtmetrics", b, up, rtMetrics),
 		mk("rtmetrics-export", b, up, rtMetricsExport),
 		mk("tokenlimiter", b, up, tokenLimiter),
+		mk("tokenlimiter-first-contact", b, up, tokenLimiterFirstContact),
 		mk("ttlmap", b, up, ttlMap),
 		mk("connlimiter", -1, false, connLimiter),
 		mk("tracer", -1, false, tracer),
